@@ -333,6 +333,50 @@ def op_quiet_salt(rng, spec):
     return "quiet cmd change %s" % rs.label(p, t["name"])
 
 
+def op_add_target(rng, spec):
+    """Adds a genrule (sometimes in a new package) consuming existing targets."""
+    ts = rs.all_targets(spec)
+    nums = [int(t["name"][1:]) for _, t in ts if t["name"][1:].isdigit()]
+    n = max(nums + [0]) + 1
+    free = [p for p in rs.PKG_POOL if p not in spec["pkgs"]]
+    if free and rng.chance(0.3):
+        pkg = rng.choice(free)
+        spec["pkgs"][pkg] = {"files": {}, "targets": [], "use_defs": False}
+    else:
+        pkg = rng.choice(sorted(spec["pkgs"]))
+    name = "t%d" % n
+    t = {"name": name, "kind": "genrule", "srcs": [], "deps": [], "outs": [name + ".out"], "salt": "new%d" % rng.intn(1000), "dir": None,
+         "binary": False, "env": {}, "pass_env": [], "labels": [], "fail": False, "requires": [], "provides": {}, "content": None, "named_srcs": False}
+    fn = "%s_s0.txt" % name
+    spec["pkgs"][pkg]["files"][fn] = "src %s\n" % name
+    t["srcs"].append("f:" + fn)
+    for dp, dt in rng.sample(ts, min(len(ts), rng.rng(0, 2))):
+        if dt["kind"] != "gentest":
+            t["srcs"].append("t:" + rs.label(dp, dt["name"]))
+    spec["pkgs"][pkg]["targets"].append(t)
+    return "add target %s" % rs.label(pkg, name)
+
+
+def op_remove_target(rng, spec):
+    """Removes a target nothing depends on."""
+    ts = rs.all_targets(spec)
+    used = set()
+    for p, t in ts:
+        for d in rs.direct_deps(spec, p, t):
+            used.add(d)
+    cands = [(p, t) for p, t in ts if rs.label(p, t["name"]) not in used]
+    if len(ts) < 3 or not cands:
+        return None
+    p, t = rng.choice(cands)
+    spec["pkgs"][p]["targets"].remove(t)
+    for s in t["srcs"]:
+        if s.startswith("f:") and not any(s in t2["srcs"] for _, t2 in rs.all_targets(spec)):
+            spec["pkgs"][p]["files"].pop(s[2:], None)
+    if not spec["pkgs"][p]["targets"] and len(spec["pkgs"]) > 1:
+        del spec["pkgs"][p]
+    return "remove target %s" % rs.label(p, t["name"])
+
+
 def op_dir_add_entry(rng, spec):
     """Adds or removes an entry of a directory output."""
     g = [(p, t) for p, t in _genrules(spec) if t.get("dir")]
@@ -359,4 +403,4 @@ def op_edit_content_len(rng, spec):
 
 
 EDIT_OPS = [op_edit_content, op_edit_content, op_change_salt, op_add_src, op_remove_src, op_rename_out, op_dir_rename, op_dir_rename,
-            op_env_change, op_toggle_binary, op_add_dep, op_remove_dep, op_text_change, op_quiet_salt]
+            op_env_change, op_toggle_binary, op_add_dep, op_remove_dep, op_text_change, op_quiet_salt, op_add_target, op_remove_target]
